@@ -170,12 +170,27 @@ def c102(ctx):
                 if any(s_["k"] == "field" and s_["f"] == fld for s_ in srcs) and any(s_["k"] == "param" and s_["i"] == 3 for s_ in srcs):
                     tests.append(P.term_pt(f, b.idx))
             q = P.must_pass(f, tests) if tests else [0]
+            # the same update written as `self.smallest = self.smallest.min(ts)` / `max`: an unconditional store of the right extreme of the
+            # tracker and the entry's timestamp
+            want = "min" if fld == "smallest_timestamp" else "max"
+            mm = []
+            for w in P.field_writes(f, r"sst::SstBuilder$", fld):
+                st_ = f.blocks[w[0]].st[w[1]]
+                for s_ in (P.origins(f, st_["rv"].get("a")) if st_["rv"].get("a") else []):
+                    if s_["k"] == "call" and re.search(r"(^|::)%s$" % want, s_["callee"]):
+                        asrc = [x for a_ in s_["t"]["args"] for x in P.origins(f, a_)]
+                        if any(x["k"] == "field" and x["f"] == fld for x in asrc) and any(x["k"] == "param" and x["i"] == 3 for x in asrc):
+                            mm.append(w)
+            if mm and P.must_pass(f, mm) is None:
+                tests, q = mm, None
             ctx.check(R, f, "compares:" + fld, bool(tests) and q is None, "every entry's timestamp is compared with %s" % fld,
                       "an entry can pass assign_last_key without being compared with %s: the table's timestamp range no longer covers its contents" % fld,
                       path=q if tests else None)
             for w in P.field_writes(f, r"sst::SstBuilder$", fld):
                 st = f.blocks[w[0]].st[w[1]]
-                ctx.check(R, f, "stores-entry-ts:" + fld, any(s_["k"] == "param" and s_["i"] == 3 for s_ in P.origins(f, st["rv"].get("a"))),
+                srcs_ = P.origins(f, st["rv"].get("a"))
+                via_mm = [x for s_ in srcs_ if s_["k"] == "call" and re.search(r"(^|::)(min|max)$", s_["callee"]) for a_ in s_["t"]["args"] for x in P.origins(f, a_)]
+                ctx.check(R, f, "stores-entry-ts:" + fld, any(s_["k"] == "param" and s_["i"] == 3 for s_ in srcs_ + via_mm),
                           "%s is updated with the entry's timestamp" % fld, "%s is updated with something other than the entry's timestamp" % fld, pt=w)
     f = ctx.fn(R, "sst::SstBuilder::get_block")
     if f:
@@ -193,10 +208,50 @@ def c103(ctx):
     f = ctx.fn(R, "<sst::SstBuilder as sst::Builder>::seal")
     if f:
         pend = ctx.calls(R, f, r"sst::SstBuilder::flush_block$")
-        inner = ctx.calls(R, f, r"seal::flush_block$", floor=2)
-        idx = [p for p in inner if any(s["k"] == "agg" and s.get("variant") == "PlainBlock" for s in P.origins(f, P.term_at(f, p)["args"][1]))]
-        flt = [p for p in inner if any(s["k"] == "agg" and s.get("variant") == "FilterBlock" for s in P.origins(f, P.term_at(f, p)["args"][1]))]
+        # the block writer seal uses for the index and the filter block, found by what it is handed (a PlainBlock / FilterBlock entry), not by
+        # its name or by where it is nested (seal::flush_block today)
+        inner = []
+        for b_, t_ in f.calls():
+            g_ = ctx.prog.fns.get(t_.get("callee") or "")
+            if g_ is None or g_.crate != "sst" or len(t_["args"]) < 2:
+                continue
+            if any(s_["k"] == "agg" and s_.get("variant") in ("PlainBlock", "FilterBlock") for a_ in t_["args"][1:] for s_ in P.origins(f, a_)):
+                inner.append(P.term_pt(f, b_.idx))
+        spliced_form = False
+        if not inner:
+            # the block writer is a new helper that was looked through (engine/blue/inline.py): the two writes are then identified by the
+            # points at which their entries are built; each copy of the writer follows its entry
+            inner = [(b_.idx, i_) for b_ in f.blocks for i_, st_ in enumerate(b_.st)
+                     if st_["s"] == "=" and st_["rv"].get("r") == "agg" and st_["rv"].get("variant") in ("PlainBlock", "FilterBlock")]
+            spliced_form = True
+        ctx.floor(R, "seal: block-entry writes", len(inner), 2)
+        if spliced_form:
+            idx = [p for p in inner if f.blocks[p[0]].st[p[1]]["rv"].get("variant") == "PlainBlock"]
+            flt = [p for p in inner if f.blocks[p[0]].st[p[1]]["rv"].get("variant") == "FilterBlock"]
+        else:
+            idx = [p for p in inner if any(s["k"] == "agg" and s.get("variant") == "PlainBlock" for a_ in P.term_at(f, p)["args"][1:] for s in P.origins(f, a_))]
+            flt = [p for p in inner if any(s["k"] == "agg" and s.get("variant") == "FilterBlock" for a_ in P.term_at(f, p)["args"][1:] for s in P.origins(f, a_))]
+
+        def meta_of(op, mine, other):
+            """the FinalBlock field is the metadata produced by the write `mine`: the value of that call, or -- when the writer was looked
+            through -- something computed after `mine`'s entry was built and not after `other`'s"""
+            srcs_ = P.origins(f, op)
+            if not spliced_form:
+                return any(s_["k"] == "call" and s_["pt"] in set(mine) for s_ in srcs_)
+            pts_ = [s_["pt"] for s_ in srcs_ if s_.get("pt") is not None and s_["k"] in ("call", "agg", "bin")]
+            after_mine = [q_ for q_ in pts_ if any(P.reach(f, P.after(f, m_), [q_], avoid=set(other)) is not None for m_ in mine)]
+            return bool(after_mine)
         st = [p for p in P.call_points(f, r"buffertk::Packable::stream$|StackPacker.*::stream$")]
+        def packed_aggs(p_):
+            out_ = []
+            for a_ in P.term_at(f, p_)["args"]:
+                for s_ in P.origins(f, a_):
+                    out_.append(s_)
+                    if s_["k"] == "call" and s_["callee"].endswith("stack_pack"):
+                        out_ += [x_ for b_ in s_["t"]["args"] for x_ in P.origins(f, b_)]
+            return out_
+        fin_ = [p for p in st if any(s_["k"] == "agg" and strip_generics(s_.get("adt") or "") == "sst::FinalBlock" for s_ in packed_aggs(p))]
+        st = fin_ or st         # the final block's own write (a block writer that was looked through streams too)
         fl = ctx.calls(R, f, r"BufWriter.* as std::io::Write>::flush$")
         sy = ctx.calls(R, f, r"std::fs::File::sync_all$")
         ctx.check(R, f, "sites", len(idx) == 1 and len(flt) == 1 and len(st) == 1, "one index-block write, one filter-block write, one final-block write",
@@ -225,9 +280,9 @@ def c103(ctx):
                 rv = stt.get("rv", {})
                 if rv.get("r") == "agg" and strip_generics(rv.get("adt", "")) == "sst::FinalBlock":
                     ops = dict(zip(rv["fields"], rv["ops"]))
-                    ctx.check(R, f, "final:index", any(s["k"] == "call" and s["pt"] in set(idx) for s in P.origins(f, ops["index_block"])), "FinalBlock.index_block is the metadata of the index write",
+                    ctx.check(R, f, "final:index", meta_of(ops["index_block"], idx, flt), "FinalBlock.index_block is the metadata of the index write",
                               "FinalBlock.index_block is not the index block's metadata", pt=(b.idx, i))
-                    ctx.check(R, f, "final:filter", any(s["k"] == "call" and s["pt"] in set(flt) for s in P.origins(f, ops["filter_block"])), "FinalBlock.filter_block is the metadata of the filter write",
+                    ctx.check(R, f, "final:filter", meta_of(ops["filter_block"], flt, idx), "FinalBlock.filter_block is the metadata of the filter write",
                               "FinalBlock.filter_block is not the filter block's metadata", pt=(b.idx, i))
                     ctx.check(R, f, "final:offset", ".bytes_written" in K.src_names(f, ops["final_block_offset"]), "final_block_offset is bytes_written before the final block",
                               "final_block_offset is not the builder's bytes_written", pt=(b.idx, i))
